@@ -10,7 +10,10 @@ for D in $WT/_out/m*; do
   cd /repo && git apply $D/patch.diff || { echo "$NAME: patch does not apply to /repo"; continue; }
   det=""; rc_check=0; nv=0
   for Q in $P $EXTRA; do
+    # the evidence file of a run against a changed tree must not replace the one of the unchanged tree
+    cp /verif/evidence/$Q.json /tmp/sk_evidence_$Q.json 2>/dev/null
     cd /verif && ./check $Q --tier quick > /tmp/sk_check_$Q.out 2>&1; rc=$?
+    cp /tmp/sk_evidence_$Q.json /verif/evidence/$Q.json 2>/dev/null
     n=$(grep -c '^VIOLATION' /tmp/sk_check_$Q.out)
     if [ $rc -eq 1 ] && [ $n -gt 0 ]; then det="$det $Q"; fi
     if [ "$Q" = "$P" ]; then rc_check=$rc; nv=$n; fi
